@@ -2018,6 +2018,8 @@ impl<'a> Iterator for ModuleEntryIterator<'a, '_> {
 pub struct ModuleGraphErrorIterator<'a, 'options> {
   iterator: ModuleEntryIterator<'a, 'options>,
   next_errors: Vec<ModuleGraphError>,
+  /// Missing modules that were already surfaced at an importing edge.
+  missing_reported_in_place: HashSet<ModuleSpecifier>,
 }
 
 impl<'a, 'options> ModuleGraphErrorIterator<'a, 'options> {
@@ -2025,7 +2027,19 @@ impl<'a, 'options> ModuleGraphErrorIterator<'a, 'options> {
     Self {
       iterator,
       next_errors: Default::default(),
+      missing_reported_in_place: Default::default(),
     }
+  }
+
+  fn push_resolution_error(&mut self, err: ModuleGraphError) {
+    if let Some(
+      ModuleErrorKind::Missing { specifier, .. }
+      | ModuleErrorKind::MissingDynamic { specifier, .. },
+    ) = err.as_module_error_kind()
+    {
+      self.missing_reported_in_place.insert(specifier.clone());
+    }
+    self.next_errors.push(err);
   }
 
   fn check_resolution(
@@ -2124,7 +2138,7 @@ impl Iterator for ModuleGraphErrorIterator<'_, '_> {
                 false,
               )
             {
-              self.next_errors.push(err);
+              self.push_resolution_error(err);
             }
 
             let check_types = kind.include_types()
@@ -2145,7 +2159,7 @@ impl Iterator for ModuleGraphErrorIterator<'_, '_> {
                   &dep.maybe_code,
                   dep.is_dynamic,
                 ) {
-                  self.next_errors.push(err);
+                  self.push_resolution_error(err);
                 }
                 if check_types
                   && let Some(err) = self.check_resolution(
@@ -2156,16 +2170,18 @@ impl Iterator for ModuleGraphErrorIterator<'_, '_> {
                     dep.is_dynamic,
                   )
                 {
-                  self.next_errors.push(err);
+                  self.push_resolution_error(err);
                 }
               }
             }
           }
           ModuleEntryRef::Err(error) => {
             // ignore missing modules when following dynamic imports
-            // because they will be resolved in place
+            // when they were already surfaced in place at the importing
+            // edge (roots and edges that are not checked have none)
             let should_ignore = follow_dynamic
-              && matches!(error.as_kind(), ModuleErrorKind::Missing { .. });
+              && matches!(error.as_kind(), ModuleErrorKind::Missing { .. })
+              && self.missing_reported_in_place.contains(error.specifier());
             if !should_ignore {
               self
                 .next_errors
